@@ -129,14 +129,15 @@ theorem opLock_uc (n c0 : Nat) (hlt : c0 < 0xffff) (db : DB) (c : Cmd) (hc : c.k
   | p0a | p0b | stateError | unlockedWaitRefused | timeout => exact h
   | «show» cur | updateEqual h' | relockNoHold h' | relockRefused h' => exact h
   | update h' =>
+    have hm := classifyLock_mem db c h' (by rw [hb]; rfl)
     simp only [applyLock]
-    apply setKey_uc (h.of_keys_eq (updateHold_db_keys _ _ _))
-    exact hk.shrink rfl (fun w hw => hw) (by simp only [replaceHolder_length]; exact Nat.le_refl _)
+    exact wake_store_uc hlt _ h (updateHold_db_keys _ _ _) (replace_inv hki hm (updateHold_depth _ _ _))
+      (hk.shrink rfl (fun w hw => hw) (by simp only [replaceHolder_length]; exact Nat.le_refl _))
   | relock h' =>
+    have hm := classifyLock_mem db c h' (by rw [hb]; rfl)
     simp only [applyLock]
-    apply setKey_uc
-    · exact h.of_keys_eq (by simp [updateHold_db_keys])
-    · exact hk.shrink rfl (fun w hw => hw) (by simp only [replaceHolder_length]; exact Nat.le_refl _)
+    exact wake_store_uc hlt _ h (by simp [updateHold_db_keys]) (relock_inv hki hm (by rw [updateHold_depth]))
+      (hk.shrink rfl (fun w hw => hw) (by simp only [replaceHolder_length]; exact Nat.le_refl _))
   | grant =>
     simp only [applyLock]
     have hd := classifyLock_grant_doLock db c hb
@@ -173,7 +174,7 @@ theorem opUnlock_uc (n c0 : Nat) (hlt : c0 < 0xffff) (db : DB) (c : Cmd) (hi : D
   | stateError | notLocked | unown | cancelNone => exact h.of_keys_eq rfl
   | cancel w =>
     simp only [applyUnlock]
-    exact setKey_uc (h.of_keys_eq rfl) (hk.shrink rfl (fun x hx => mem_removeWaiter hx) (Nat.le_refl _))
+    exact wake_store_uc hlt _ h rfl (waiters_inv hki _ _) (hk.shrink rfl (fun x hx => mem_removeWaiter hx) (Nat.le_refl _))
   | dec h' c' =>
     have hm := classifyUnlock_mem db c h' (by rw [hb]; rfl)
     have hd := classifyUnlock_dec db c c' h' hb
@@ -186,9 +187,11 @@ theorem opUnlock_uc (n c0 : Nat) (hlt : c0 < 0xffff) (db : DB) (c : Cmd) (hi : D
     exact wake_store_uc hlt _ h rfl (release_inv hki hm)
       (hk.shrink rfl (fun w hw => hw) (removeHolder_length_le _ _))
 
-theorem fireTimeout_uc (n c0 : Nat) (db : DB) (key : Nat) (w : Waiter) (h : UCdb n c0 db) : UCdb n c0 (fireTimeout db key w).1 := by
+theorem fireTimeout_uc (n c0 : Nat) (hlt : c0 < 0xffff) (db : DB) (key : Nat) (w : Waiter) (hi : DBInv db) (h : UCdb n c0 db) :
+    UCdb n c0 (fireTimeout db key w).1 := by
   unfold fireTimeout
-  exact setKey_uc (h.of_keys_eq rfl) ((getKey_uc h key).shrink rfl (fun x hx => mem_removeWaiter hx) (Nat.le_refl _))
+  exact wake_store_uc hlt _ h rfl (waiters_inv (getKey_inv hi key) _ _)
+    ((getKey_uc h key).shrink rfl (fun x hx => mem_removeWaiter hx) (Nat.le_refl _))
 
 theorem fireExpire_uc (n c0 : Nat) (hlt : c0 < 0xffff) (db : DB) (key : Nat) (hd : Hold) (hm : hd ∈ (db.getKey key).holders)
     (hi : DBInv db) (h : UCdb n c0 db) : UCdb n c0 (fireExpire db key hd).1 := by
@@ -263,11 +266,11 @@ theorem timeoutStep_u3 (n c0 : Nat) (acc : DB × List Waiter) (w : Waiter) (hw :
   · exact ⟨rearmWaiter_inv _ _ h.inv, rearmWaiter_uc n c0 _ w hw h.uc, rearmWaiter_wc n c0 _ w hw h.wc⟩
   · exact h
 
-theorem fireTimeoutStep_u3 (n c0 : Nat) (acc : DB × List Reply) (w : Waiter) (h : U3 n c0 acc.1) :
+theorem fireTimeoutStep_u3 (n c0 : Nat) (hlt : c0 < 0xffff) (acc : DB × List Reply) (w : Waiter) (h : U3 n c0 acc.1) :
     U3 n c0 (fireTimeoutStep acc w).1 := by
   unfold fireTimeoutStep
   split
-  · exact ⟨fireTimeout_inv _ _ _ h.inv, fireTimeout_uc n c0 _ _ _ h.uc, h.wc.of_sub (fun _ hx => mem_allW_fireTimeout hx)⟩
+  · exact ⟨fireTimeout_inv _ _ _ h.inv, fireTimeout_uc n c0 hlt _ _ _ h.inv h.uc, h.wc.of_sub (fun _ hx => mem_allW_fireTimeout hx)⟩
   · exact h
 
 theorem expireStep_u3 (n c0 : Nat) (acc : DB × List Hold) (hd : Hold) (h : U3 n c0 acc.1) : U3 n c0 (expireStep acc hd).1 := by
@@ -288,9 +291,9 @@ theorem fireExpireStep_u3 (n c0 : Nat) (hlt : c0 < 0xffff) (acc : DB × List Rep
       h.wc.of_sub (fun _ hx => mem_allW_fireExpire hx)⟩
   · exact h
 
-theorem sweepTimeout_u3 (n c0 : Nat) (db : DB) (c : Nat) (h : U3 n c0 db) : U3 n c0 (sweepTimeout db c).1 := by
+theorem sweepTimeout_u3 (n c0 : Nat) (hlt : c0 < 0xffff) (db : DB) (c : Nat) (h : U3 n c0 db) : U3 n c0 (sweepTimeout db c).1 := by
   unfold sweepTimeout timeoutPass1
-  refine foldl_P (U3 n c0) _ (fireTimeoutStep_u3 n c0) _ _ ?_
+  refine foldl_P (U3 n c0) _ (fireTimeoutStep_u3 n c0 hlt) _ _ ?_
   refine foldl_PQ_mem (U3 n c0) (fun w => w.cmd.key = n → w.cmd.count = c0) _ (fun acc a ha hp => timeoutStep_u3 n c0 acc a ha hp)
     _ ?_ _ h
   intro w hw
@@ -308,7 +311,7 @@ theorem opTick_u3 (n c0 : Nat) (hlt : c0 < 0xffff) (db : DB) (h : U3 n c0 db) : 
   apply sweepExpire_u3 n c0 hlt
   have h0 : U3 n c0 { db with now := db.now + 1, tCheck := db.now + 1 + 1 } :=
     ⟨h.inv.of_keys_eq rfl, h.uc.of_keys_eq rfl, h.wc.of_sub (fun _ hx => mem_allW_of_keys_eq rfl hx)⟩
-  have h1 := sweepTimeout_u3 n c0 _ (db.now + 1) h0
+  have h1 := sweepTimeout_u3 n c0 hlt _ (db.now + 1) h0
   exact ⟨h1.inv.of_keys_eq rfl, h1.uc.of_keys_eq rfl, h1.wc.of_sub (fun _ hx => mem_allW_of_keys_eq rfl hx)⟩
 
 theorem opLock_u3 (n c0 : Nat) (hlt : c0 < 0xffff) (db : DB) (c : Cmd) (hc : c.key = n → c.count = c0) (h : U3 n c0 db) :
